@@ -9,6 +9,8 @@ pid, suf = sys.argv[1], sys.argv[2]
 extra = sys.argv[3] if len(sys.argv) > 3 else ""
 if not os.path.isdir('/tmp/seedkit'):
     shutil.copytree(os.path.join(V, 'tools/seedkit'), '/tmp/seedkit')
+if not os.path.isdir('/tmp/seedkit/compat'):
+    shutil.copytree(os.path.join(V, 'compat'), '/tmp/seedkit/compat')
 os.makedirs('/tmp/seedkit/prompts', exist_ok=True)
 prop = None
 for l in open(os.path.join(V, 'properties.jsonl')):
